@@ -10,7 +10,7 @@ OBLIGATIONS = [
        bounds="every name string of length <= 6 (thorough 12) over ASCII admitted by the input grammar: '<name>' is one whitespace-free token, matches the name component regex and no earlier component regex"),
     SX("sx_molfiles", "sx_c18", "ob_molfiles", cls="E", quick=600, thorough=2400, parts={"quick": 7, "thorough": 7},
        functions=[M + "ctab.py:write_structure_to_ctab/read_structure_from_ctab (V2000 + V3000)", M + "mol.py:MOLFile", M + "sdf.py:SDFile/SDRecord/Metadata", M + "header.py:Header"],
-       bounds="molecules of 1..3 atoms x 8 boundary coordinates at any atom/axis x charges {0,1,3,4,15} (thorough 0..15, both signs) x 8 bond type rotations x {auto, V2000, V3000} x {MOL, 2-record SDF with header and multi-part metadata keys, multi-line values}; atom/bond counts {50,999,1000} x {0,998,999,1000,1100}: V2000 only when counts fit, fixed-width lines, read back equal"),
+       bounds="molecules of 1..3 atoms x 8 boundary coordinates at any atom/axis x charges {0,1,3,4,15} (thorough 0..15, both signs) x 8 bond type rotations x {auto, V2000, V3000} x {MOL, 2-record SDF with header and multi-part metadata keys, multi-line values}; atom/bond counts {50,999,1000} x {0,998,999,1000,1100}: V2000 only when counts fit, fixed-width lines, read back equal; records of a READ SD file stored under new names in another SD file next to a fresh record: names, order, metadata and structure survive"),
     SX("sx_rdkit", "sx_c18", "ob_rdkit", cls="E", quick=300, parts=1,
        functions=["src/biotite/interface/rdkit/mol.py:to_mol/from_mol"],
        bounds="molecules of 1..3 atoms, single/double/triple/quadruple bonds, charges, 1..3 models (conformers) through RDKit and back with add_hydrogen=False; 13 complete molecules (Kekule and aromatic six-rings with H / Cl / F substituents in both alternations, CO2, N2, CCl4, chloride, nitrate, HCN) x 1..2 models with DEFAULT options: nothing added, removed, reordered or retyped (the two Kekule forms of an aromatic ring are not distinguished)"),
